@@ -19,21 +19,30 @@ CONSTANTS Mode, MaxLen, EMIT
 VARIABLES disk, running, hist
 vars == <<disk, running, hist>>
 
+Mk(td, tm, of, cl, bl, kind) == [tooldiff |-> td, toolmerge |-> tm, outfile |-> of, closable |-> cl, badlocal |-> bl, out |-> kind]
 Modes ==
-  [ server        |-> [tooldiff |-> FALSE, toolmerge |-> FALSE, outfile |-> FALSE, closable |-> FALSE, badlocal |-> FALSE],
-    difftool      |-> [tooldiff |-> TRUE,  toolmerge |-> FALSE, outfile |-> FALSE, closable |-> TRUE,  badlocal |-> FALSE],
+  [ server        |-> Mk(FALSE, FALSE, FALSE, FALSE, FALSE, "file"),
+    difftool      |-> Mk(TRUE,  FALSE, FALSE, TRUE,  FALSE, "file"),
     \* the diff tool started on two revisions of a repository: the notebooks are open streams, not file names
-    difftool_refs |-> [tooldiff |-> TRUE,  toolmerge |-> FALSE, outfile |-> FALSE, closable |-> TRUE,  badlocal |-> FALSE],
-    mergetool_out |-> [tooldiff |-> FALSE, toolmerge |-> TRUE,  outfile |-> TRUE,  closable |-> TRUE,  badlocal |-> FALSE],
-    mergetool     |-> [tooldiff |-> FALSE, toolmerge |-> TRUE,  outfile |-> FALSE, closable |-> TRUE,  badlocal |-> FALSE],
+    difftool_refs |-> Mk(TRUE,  FALSE, FALSE, TRUE,  FALSE, "file"),
+    mergetool_out |-> Mk(FALSE, TRUE,  TRUE,  TRUE,  FALSE, "file"),
+    mergetool     |-> Mk(FALSE, TRUE,  FALSE, TRUE,  FALSE, "file"),
     \* the merge tool started on a local file that is not a notebook (git left conflict markers in it)
-    mergetool_badfile |-> [tooldiff |-> FALSE, toolmerge |-> TRUE, outfile |-> FALSE, closable |-> TRUE, badlocal |-> TRUE],
-    mergeweb_out  |-> [tooldiff |-> FALSE, toolmerge |-> FALSE, outfile |-> TRUE,  closable |-> FALSE, badlocal |-> FALSE] ]
+    mergetool_badfile |-> Mk(FALSE, TRUE, FALSE, TRUE, TRUE, "file"),
+    mergeweb_out  |-> Mk(FALSE, FALSE, TRUE,  FALSE, FALSE, "file"),
+    \* the merge tool started with the LOCAL notebook as output file (resolve in place): a stored result is an input of
+    \* the next merge request, which must be answered from what is on disk then
+    mergetool_inplace |-> Mk(FALSE, TRUE, TRUE, TRUE, FALSE, "local"),
+    \* the output file lies in a directory that does not exist (yet): storing may fail - then nothing, no directory
+    \* either, may appear - or create it
+    mergeweb_newdir |-> Mk(FALSE, FALSE, TRUE, FALSE, FALSE, "newdir") ]
 M == Modes[Mode]
+OutFile == IF M.out = "local" THEN "b.ipynb" ELSE "out.ipynb"
 
 Files == {"a.ipynb", "b.ipynb", "c.ipynb", "notnb.txt", "out.ipynb"}
+\* content id 0: the file does not exist
 Disk0 == [f \in Files |-> CASE f = "a.ipynb" -> 1 [] f = "b.ipynb" -> 2 [] f = "c.ipynb" -> 3
-                            [] f = "notnb.txt" -> 4 [] f = "out.ipynb" -> 5]
+                            [] f = "notnb.txt" -> 4 [] f = "out.ipynb" -> IF M.out = "newdir" THEN 0 ELSE 5]
 \* content ids 6, 7: the notebooks submitted by the two store requests of the alphabet
 
 Requests ==
@@ -57,7 +66,7 @@ Response(r) ==
   IF ~running THEN "none"
   ELSE CASE IsDiff(r)  -> IF M.tooldiff \/ ValidBody(r) THEN "ok" ELSE "error"
          [] IsMerge(r) -> IF M.badlocal THEN "error" ELSE IF M.toolmerge \/ ValidBody(r) THEN "ok" ELSE "error"
-         [] IsStore(r) -> IF M.outfile /\ ValidBody(r) THEN "ok" ELSE "error"
+         [] IsStore(r) -> IF M.outfile /\ ValidBody(r) /\ M.out # "newdir" THEN "ok" ELSE "error"
          [] r = "close" -> IF M.closable THEN "ok" ELSE "error"
          [] OTHER -> "error"
 
@@ -67,13 +76,14 @@ AltResponses(r) ==
   IF running /\ ~ValidBody(r) /\ ((IsDiff(r) /\ M.tooldiff) \/ (IsMerge(r) /\ M.toolmerge /\ ~M.badlocal)) THEN {"error"}
   \* accepted instead of refused: the replay then expects the submitted notebook in the output file and ends there
   ELSE IF running /\ r = "store_surrogate" /\ M.outfile THEN {"ok"}
+  ELSE IF running /\ IsStore(r) /\ ValidBody(r) /\ M.out = "newdir" THEN {"ok"}
   ELSE {}
 
 Init == disk = Disk0 /\ running = TRUE /\ hist = <<>>
 
 Do(r) ==
-  /\ disk' = IF running /\ M.outfile /\ r = "store_6" THEN [disk EXCEPT !["out.ipynb"] = 6]
-             ELSE IF running /\ M.outfile /\ r = "store_7_extra" THEN [disk EXCEPT !["out.ipynb"] = 7]
+  /\ disk' = IF running /\ Response(r) = "ok" /\ r = "store_6" THEN [disk EXCEPT ![OutFile] = 6]
+             ELSE IF running /\ Response(r) = "ok" /\ r = "store_7_extra" THEN [disk EXCEPT ![OutFile] = 7]
              ELSE disk
   /\ running' = IF running /\ r = "close" /\ M.closable THEN FALSE ELSE running
   /\ hist' = Append(hist, [req |-> r, resp |-> Response(r), alt |-> AltResponses(r), disk |-> disk', running |-> running'])
@@ -87,7 +97,7 @@ Spec == Init /\ [][Next]_vars
 \* only the output file fixed at start-up ever changes, and only by a successful store
 OnlyOutputFileEverChanges ==
   [][\A f \in Files : disk'[f] # disk[f] =>
-        (f = "out.ipynb" /\ M.outfile /\ hist'[Len(hist')].resp = "ok" /\ IsStore(hist'[Len(hist')].req))]_vars
+        (f = OutFile /\ M.outfile /\ hist'[Len(hist')].resp = "ok" /\ IsStore(hist'[Len(hist')].req))]_vars
 StoreRefusedWithoutOutput ==
   \A k \in 1..Len(hist) : (IsStore(hist[k].req) /\ ~M.outfile /\ hist[k].resp # "none") => hist[k].resp = "error"
 CloseOnlyIfClosable ==
